@@ -49,14 +49,18 @@ Theorem C03_chunked_keys_float r ng chunks : api_value_reducer r ->
   (forall ch, In ch chunks -> chunk_ok ng ch) ->
   apply_across_chunks fops r (core_merge r) ng chunks
   = chunk_cells fops r ng (concat (map (fun ch => unify_rows (fst ch) (snd ch)) chunks)).
-Proof. exact (chunked_model_equal_whole fops fops_laws fops_sum_closed r ng chunks). Qed.
+Proof. exact (chunked_model_equal_whole fops fops_laws r ng chunks). Qed.
 Print Assumptions C03_chunked_keys_float.
 
-Theorem C03_chunked_keys_int nullv r ng chunks : api_value_reducer r ->
+(* integers, and (nullable = true) timestamps / timedeltas with the NaT sentinel.  No side condition on the partial
+   sums: since /repo fix "partial sums of key chunks are added plainly" a partial sum that equals the sentinel is
+   not dropped by the merge (before that fix this theorem needed sum_closed, which is false for sentinel-null
+   integers — the hypothesis the proof forced was the defect) *)
+Theorem C03_chunked_keys_int nullable nullv r ng chunks : api_value_reducer r ->
   (forall ch, In ch chunks -> chunk_ok ng ch) ->
-  apply_across_chunks (zops false nullv) r (core_merge r) ng chunks
-  = chunk_cells (zops false nullv) r ng (concat (map (fun ch => unify_rows (fst ch) (snd ch)) chunks)).
-Proof. exact (chunked_model_equal_whole _ (zops_laws false nullv) (zops_never_null_closed nullv) r ng chunks). Qed.
+  apply_across_chunks (zops nullable nullv) r (core_merge r) ng chunks
+  = chunk_cells (zops nullable nullv) r ng (concat (map (fun ch => unify_rows (fst ch) (snd ch)) chunks)).
+Proof. exact (chunked_model_equal_whole _ (zops_laws nullable nullv) r ng chunks). Qed.
 Print Assumptions C03_chunked_keys_int.
 
 (* 3. Order in which parallel tasks finish: results are stored at their submission index,
